@@ -34,6 +34,8 @@ CONSTANTS
     IgnoreCC,     \* ignore_cache_control
     ForceDefault, \* force_default_max_age
     MaxVer, MaxNow, MaxX,
+    StoreMayRefuse, \* the cache may refuse to keep a storable answer (empty body on the file backend, no room):
+                  \* the answer is then handled like one that is not storable (every waiter fetches its own)
     Retry416,     \* retry_on_range_416: a 416 from the origin is retried once without the Range header
     Kinds,        \* request kinds exercised: subset of {"get","range","head","post"}
     Conds         \* client conditional headers exercised: subset of {"none","inm","ims","bad"}
@@ -166,6 +168,7 @@ Reply(x, status, st, lr) ==
           /\ is200 => \/ st = (Storable(origin[r].form) = "yes")
                        \/ Storable(origin[r].form) = "either"
                        \/ (~ct.leader /\ ct.kind = "get" /\ ~st)
+                       \/ (StoreMayRefuse /\ ~st)
           /\ ~is200 => st = FALSE
           /\ lr => (ct.leader /\ ct.kind = "get")
           /\ (~fromStore /\ ~vanished) => nextX + nfol <= MaxX + 1
